@@ -44,7 +44,7 @@ CHECKS = {
         rule="histories are drawn by a seeded generator of legal evolution steps (FieldAdded / FieldMadeOptional / FieldRemoved / FieldMadeTransient, length 1-5); every prefix becomes a compiled Rust type in four embeddings; all (w, r) pairs x generated values of version w are written by w and read by r; non-trivial = w != r, distinct by (reader type, bytes); every outcome class must be observed at least 10 times; plus four fixed scenarios in which an older reader skips the chunk of an added field that holds a derived record (with / without names in its header, sibling before / after)",
         floors={"any": {"position_limit:made_optional_in_chunk_127:as_documented": 1, "position_limit:made_optional_at_position_128:as_documented": 1, "skipped_chunk:nested_record_without_header_names_then_sibling:as_documented": 1, "outcome:as_written": 10, "outcome:wrapped": 10, "outcome:unwrapped": 10, "outcome:none_is_error": 10,
                         "outcome:default_taken": 10, "outcome:removed_reads_none": 10, "outcome:removed_is_error": 10,
-                        "outcome:newer_data_skipped": 10, "outcome:dropped_field_ignored": 10, "histories": 30}},
+                        "outcome:newer_data_skipped": 10, "outcome:dropped_field_ignored": 10, "outcome:name_of_an_earlier_field_reused": 10, "histories": 30}},
         assumptions=["legal histories only: chunk-0 field order never changes, a field is removed / made transient only while it is the last one serialized in its chunk, names are never reused"],
     ),
     "C04": dict(
@@ -61,7 +61,8 @@ CHECKS = {
              "decode it to the value; distinct = distinct (type, bytes) pairs",
         floors={"any": {"emitted_conforms": 5000, "reference_encoding_decodes": 5000,
                         "reference_encodings_with_unknown_length_form": 500,
-                        "golden_file_decoded_identically_and_reencoded_byte_exact_by_reference": 1, "big_values_ok": 50}},
+                        "golden_file_decoded_identically_and_reencoded_byte_exact_by_reference": 1, "big_values_ok": 50,
+                        "reference_encodings_with_newer_tuples_decode": 5000}},
         assumptions=["chrono / uuid / big-number layouts are frozen as found on the pinned tree (no external document)"],
     ),
     "C05": dict(
@@ -102,7 +103,8 @@ CHECKS = {
              "len(s) bytes must remain; s is empty, one hostile byte, random bytes, a copy of the encoding or another valid "
              "encoding; in addition 2-5 heterogeneous values are written into one stream and read back one after another; "
              "non-trivial = non-empty suffix or multi-value stream, distinct by (type, buffer)",
-        floors={"any": {"exact_consumption": 5000, "streams_read_back": 100, "big_values_ok": 50, "cross_version_exact_consumption": 1000}},
+        floors={"any": {"exact_consumption": 5000, "streams_read_back": 100, "big_values_ok": 50, "cross_version_exact_consumption": 1000,
+                        "newer_tuples_exact_consumption": 5000}},
     ),
     "C08": dict(
         claim='Fault enumeration over crash points: every strict prefix of every generated encoding (all cut points up to 4 KiB) is fed to the decoder; each must be rejected with Err. Also: prefixes of reference encodings in the unknown-length sequence form, prefixes of other versions\' data under every version of the same history (stored version >= 1), and cut points of multi-megabyte values.',
